@@ -23,17 +23,20 @@ Proof. revert n; induction l as [|y l IH]; intros [|n]; cbn [skipn nth_error]; t
 Section ProtoProofs.
   Variables (cat stmt : Type).
   Variable exec : stmt -> cat -> option cat.
+  Variable pexec : list bool -> stmt -> cat -> cat.
   Variable scripts : stream -> list stmt.
 
   Notation db := (db cat).
-  Notation loop := (loop cat stmt exec).
+  Notation loop := (loop cat stmt exec pexec).
   Notation prelude := (prelude cat).
-  Notation us := (us cat stmt exec scripts).
-  Notation run_streams := (run_streams cat stmt exec scripts).
-  Notation update := (update cat stmt exec scripts).
-  Notation multi_run := (multi_run cat stmt exec scripts).
+  Notation us := (us cat stmt exec pexec scripts).
+  Notation run_streams := (run_streams cat stmt exec pexec scripts).
+  Notation update := (update cat stmt exec pexec scripts).
+  Notation multi_run := (multi_run cat stmt exec pexec scripts).
   Notation do_call := (do_call cat).
   Notation eff_script := (eff_script cat stmt exec).
+  Notation peff_script := (peff_script cat stmt pexec).
+  Notation peff_none := (peff_none cat).
   Notation eff_setver := (eff_setver cat).
   Notation apply_all := (apply_all cat stmt exec).
   Notation prefix := (prefix cat stmt exec).
@@ -41,16 +44,26 @@ Section ProtoProofs.
   Notation len k := (List.length (scripts k)).
 
   (* ------------------------------------------------------------ one database call *)
+  Lemma do_call_inv_gen o eff peff (d d1 : db) r1 :
+    do_call o eff peff d = (d1, r1) ->
+    (r1 = ROk /\ eff d = Some d1) \/ (r1 = RFAfter /\ eff d = Some d1)
+    \/ (res_applied r1 = false /\ (d1 = d \/ exists m, d1 = peff m d)).
+  Proof.
+    unfold Migrate.do_call. destruct o; [destruct (eff d) eqn:E| |destruct (eff d) eqn:E|];
+      intros H; inversion H; subst; cbn; auto;
+      right; right; (split; [reflexivity|]); right; eexists; reflexivity.
+  Qed.
+
+  (* a call on ver / ver_dist: no partial effect *)
   Lemma do_call_inv o eff (d d1 : db) r1 :
-    do_call o eff d = (d1, r1) ->
+    do_call o eff peff_none d = (d1, r1) ->
     (r1 = ROk /\ eff d = Some d1) \/ (r1 = RFAfter /\ eff d = Some d1)
     \/ (res_applied r1 = false /\ d1 = d).
   Proof.
-    unfold Migrate.do_call. destruct o; [destruct (eff d) eqn:E| |destruct (eff d) eqn:E];
-      intros H; inversion H; subst; cbn; auto.
+    intros H. destruct (do_call_inv_gen _ _ _ _ _ _ H) as [A|[A|[A [B|[m B]]]]]; auto.
   Qed.
 
-  Lemma do_call_ok_clean eff (d d' : db) : eff d = Some d' -> do_call OOk eff d = (d', ROk).
+  Lemma do_call_ok_clean eff peff (d d' : db) : eff d = Some d' -> do_call OOk eff peff d = (d', ROk).
   Proof. intros H. unfold Migrate.do_call. now rewrite H. Qed.
 
   Lemma eff_script_inv x (d d1 : db) :
@@ -60,6 +73,21 @@ Section ProtoProofs.
   Proof.
     unfold Migrate.eff_script. destruct (exec x (d_cat d)) as [c'|]; [|discriminate].
     intros H; inversion H; subst. exists c'. cbn. auto.
+  Qed.
+
+  (* a script call: versions and the ver tables stay; the catalogue is the statement's result when it
+     completed, otherwise unchanged or a partial application *)
+  Lemma script_call_inv o x (d d1 : db) r1 :
+    do_call o (eff_script x) (peff_script x) d = (d1, r1) ->
+    d_vers d1 = d_vers d /\ d_ver_tbl d1 = d_ver_tbl d /\ d_vd_tbl d1 = d_vd_tbl d /\
+    ((res_applied r1 = true /\ exec x (d_cat d) = Some (d_cat d1)) \/
+     (res_applied r1 = false /\ (d_cat d1 = d_cat d \/ exists m, d_cat d1 = pexec m x (d_cat d)))).
+  Proof.
+    intros H. destruct (do_call_inv_gen _ _ _ _ _ _ H) as [[-> He]|[[-> He]|[A [->|[m ->]]]]].
+    - apply eff_script_inv in He. destruct He as (c' & Ex & <- & Hv & Ht & Hd). cbn. auto 6.
+    - apply eff_script_inv in He. destruct He as (c' & Ex & <- & Hv & Ht & Hd). cbn. auto 6.
+    - auto 7.
+    - unfold Migrate.peff_script. cbn. repeat (split; [reflexivity|]). right. split; [exact A|]. right. eauto.
   Qed.
 
   Lemma eff_setver_inv k v (d d1 : db) :
@@ -84,7 +112,7 @@ Section ProtoProofs.
     (os = [] -> r_ok p = true /\ r_os p = []).
   Proof.
     unfold Migrate.prelude, no_scripts.
-    destruct (do_call (o_hd os) (eff_create_ver cat) d) as [d1 r1] eqn:E1.
+    destruct (do_call (o_hd os) (eff_create_ver cat) peff_none d) as [d1 r1] eqn:E1.
     assert (H1 : d_cat d1 = d_cat d /\ d_vers d1 = d_vers d /\ d_vd_tbl d1 = d_vd_tbl d /\
                  (d_ver_tbl d = true -> d_ver_tbl d1 = true) /\ (res_ok r1 = true -> d_ver_tbl d1 = true) /\
                  (os = [] -> res_ok r1 = true)).
@@ -96,7 +124,7 @@ Section ProtoProofs.
         split; [discriminate|]. split; [reflexivity|]. intros Hos. specialize (Hcl1 Hos). discriminate. }
     specialize (Hok1 eq_refl).
     destruct (clustered c) eqn:Ecl.
-    - destruct (do_call (o_hd (tl os)) (eff_create_vd cat) d1) as [d2 r2] eqn:E2.
+    - destruct (do_call (o_hd (tl os)) (eff_create_vd cat) peff_none d1) as [d2 r2] eqn:E2.
       assert (H2 : d_cat d2 = d_cat d1 /\ d_vers d2 = d_vers d1 /\ d_ver_tbl d2 = d_ver_tbl d1 /\
                    (res_ok r2 = true -> d_vd_tbl d2 = true) /\ (os = [] -> res_ok r2 = true)).
       { unfold Migrate.do_call, eff_create_vd in E2. destruct (o_hd (tl os)) eqn:Eo; inversion E2; subst; cbn;
@@ -107,7 +135,7 @@ Section ProtoProofs.
           split; [exact Ht1|]. split; [discriminate|]. split; [reflexivity|].
           intros Hos. specialize (Hcl2 Hos). discriminate. }
       specialize (Hok2 eq_refl).
-      destruct (do_call (o_hd (tl (tl os))) (eff_read cat c) d2) as [d3 r3] eqn:E3.
+      destruct (do_call (o_hd (tl (tl os))) (eff_read cat c) peff_none d2) as [d3 r3] eqn:E3.
       assert (H3 : d3 = d2 /\ (os = [] -> res_ok r3 = true)).
       { unfold Migrate.do_call, eff_read in E3. rewrite Ecl, Hok2, Ht2, Hok1 in E3. cbn in E3.
         destruct (o_hd (tl (tl os))) eqn:Eo; inversion E3; subst; (split; [reflexivity|]);
@@ -116,7 +144,7 @@ Section ProtoProofs.
       rewrite Hc2, Hv2, Ht2. split; [exact Hc1|]. split; [exact Hv1|]. split; [exact Ht1|].
       split; [intros _; exact Hok1|]. split; [cbn; reflexivity|].
       intros Hos. split; [now apply Hcl3|now subst os].
-    - destruct (do_call (o_hd (tl os)) (eff_read cat c) d1) as [d3 r3] eqn:E3.
+    - destruct (do_call (o_hd (tl os)) (eff_read cat c) peff_none d1) as [d3 r3] eqn:E3.
       assert (H3 : d3 = d1 /\ (os = [] -> res_ok r3 = true)).
       { unfold Migrate.do_call, eff_read in E3. rewrite Ecl, Hok1 in E3.
         destruct (o_hd (tl os)) eqn:Eo; inversion E3; subst; (split; [reflexivity|]);
@@ -149,7 +177,7 @@ Section ProtoProofs.
   Lemma mon_script m k i r : m_rec m k <= i -> i <= m_app m k ->
     mon_step m (EScript k i r) = Some (if res_applied r then bump_app m k i else m).
   Proof.
-    intros H1 H2. cbn. apply Nat.leb_le in H1, H2. rewrite H1, H2. destruct (res_applied r); reflexivity.
+    intros H1 H2. cbn. apply Nat.leb_le in H1, H2. rewrite H1, H2. destruct r; reflexivity.
   Qed.
   Lemma mon_ins m k v r : v <= m_app m k ->
     mon_step m (EInsVer k v r) = Some (if res_applied r then bump_rec m k v else m).
@@ -161,18 +189,16 @@ Section ProtoProofs.
   Proof.
     induction todo as [|x todo IH]; intros os d m HL; cbn [Migrate.loop].
     - cbn. eauto.
-    - destruct (do_call (o_hd os) (eff_script x) d) as [d1 r1] eqn:E1.
+    - destruct (do_call (o_hd os) (eff_script x) (peff_script x) d) as [d1 r1] eqn:E1.
       set (m1 := if res_applied r1 then bump_app m k (d_vers d k) else m).
       destruct (HL k) as [Hrec Hle].
-      assert (Hv1 : d_vers d1 = d_vers d).
-      { destruct (do_call_inv _ _ _ _ _ E1) as [[_ He]|[[_ He]|[_ ->]]]; [| |reflexivity];
-          apply eff_script_inv in He; destruct He as (c' & _ & _ & Hv & _); exact Hv. }
+      assert (Hv1 : d_vers d1 = d_vers d) by (destruct (script_call_inv _ _ _ _ _ E1) as (Hv & _); exact Hv).
       assert (HL1 : Link d1 m1).
       { intros k'. rewrite Hv1. destruct (HL k') as [Ha Hb]. unfold m1, bump_app.
         destruct (res_applied r1); cbn [m_app m_rec]; [|auto]. split; [exact Ha|]. destruct (stream_eqb k' k); lia. }
       destruct (res_ok r1) eqn:R1.
       + pose proof (res_ok_applied _ R1) as A1.
-        destruct (do_call (o_hd (tl os)) (eff_setver k (S (d_vers d k))) d1) as [d2 r2] eqn:E2.
+        destruct (do_call (o_hd (tl os)) (eff_setver k (S (d_vers d k))) peff_none d1) as [d2 r2] eqn:E2.
         assert (Happ1k : S (d_vers d k) <= m_app m1 k).
         { unfold m1, bump_app. rewrite A1. cbn [m_app]. rewrite stream_eqb_refl. lia. }
         assert (Hrec1k : m_rec m1 k <= d_vers d k) by (unfold m1, bump_app; destruct (res_applied r1); exact Hrec).
@@ -310,46 +336,39 @@ Section ProtoProofs.
   Lemma prefix_all l c0 : prefix l (List.length l) c0 = apply_all l c0.
   Proof. unfold Migrate.prefix. now rewrite firstn_all. Qed.
 
-  (* re-executability along the uninterrupted run, as a proposition *)
+  (* ---- the premise of convergence, as propositions.  Mid x c cm: cm is what the database can look like
+     while statement x, started in c, has not been seen to complete (x ran on some of the hosts).  One server:
+     cm = c or cm = the result of x.  GoodAt x c1: from every such state, x completes to the same c2, and an
+     incomplete execution stays among these states. *)
+  Variable Mid : stmt -> cat -> cat -> Prop.
+  Hypothesis Mid_refl : forall x c, Mid x c c.
+  Definition GoodAt (x : stmt) (c1 : cat) : Prop :=
+    exists c2, Mid x c1 c2 /\
+      forall cm, Mid x c1 cm -> exec x cm = Some c2 /\ forall m, Mid x c1 (pexec m x cm).
   Definition reexecP (l : list stmt) (c0 : cat) : Prop :=
-    forall n x c1 c2, nth_error l n = Some x -> prefix l n c0 = Some c1 -> exec x c1 = Some c2 -> exec x c2 = Some c2.
+    forall n x c1, nth_error l n = Some x -> prefix l n c0 = Some c1 -> GoodAt x c1.
+  Fixpoint reexec_streamsP (ks : list stream) (c0 : cat) : Prop :=
+    match ks with
+    | [] => True
+    | k :: ks' => reexecP (scripts k) c0 /\ exists c1, apply_all (scripts k) c0 = Some c1 /\ reexec_streamsP ks' c1
+    end.
 
-  Variable cat_eqb : cat -> cat -> bool.
-  Hypothesis cat_eqb_sound : forall a b, cat_eqb a b = true -> a = b.
-  Notation reexec_ok := (reexec_ok cat stmt exec cat_eqb).
-  Notation reexec_streams := (reexec_streams cat stmt exec scripts cat_eqb).
-
-  Lemma reexec_ok_sound : forall l c0, reexec_ok l c0 = true ->
-    reexecP l c0 /\ exists cf, apply_all l c0 = Some cf.
-  Proof.
-    induction l as [|x l IH]; intros c0 H.
-    - split; [|cbn; eauto]. intros [|n] y c1 c2 Hn; cbn in Hn; discriminate.
-    - cbn in H. destruct (exec x c0) as [c1|] eqn:E0; [|discriminate].
-      destruct (exec x c1) as [c2|] eqn:E1; [|discriminate].
-      apply andb_true_iff in H. destruct H as [Heq Hr]. apply cat_eqb_sound in Heq. subst c2.
-      destruct (IH c1 Hr) as [HP [cf Hcf]]. split.
-      + intros [|n] y a b Hn Hp He.
-        * cbn in Hn, Hp. inversion Hn; subst y. inversion Hp; subst a. rewrite E0 in He. inversion He; subst b. exact E1.
-        * cbn in Hn. unfold Migrate.prefix in Hp. cbn in Hp. rewrite E0 in Hp. exact (HP n y a b Hn Hp He).
-      + exists cf. cbn. now rewrite E0.
-  Qed.
-
-  (* invariant of one stream relative to the catalogue c0 it started from in the uninterrupted run:
-     the recorded version never exceeds what was applied, and at most the next script is applied but unrecorded *)
+  (* invariant of one stream relative to the catalogue c0 it started from in the uninterrupted run: the
+     recorded version v never exceeds the script count, scripts 0..v-1 are applied, and script v is
+     somewhere between not started and complete (but unrecorded) *)
   Definition StreamInv (k : stream) (c0 : cat) (d : db) : Prop :=
     d_vers d k <= len k /\
-    (prefix (scripts k) (d_vers d k) c0 = Some (d_cat d) \/
-     (d_vers d k < len k /\ prefix (scripts k) (S (d_vers d k)) c0 = Some (d_cat d))).
+    exists cp, prefix (scripts k) (d_vers d k) c0 = Some cp /\
+               match nth_error (scripts k) (d_vers d k) with
+               | Some x => Mid x cp (d_cat d)
+               | None => d_cat d = cp
+               end.
 
-  Lemma script_step k c0 (d : db) x c' :
-    reexecP (scripts k) c0 -> StreamInv k c0 d -> nth_error (scripts k) (d_vers d k) = Some x ->
-    exec x (d_cat d) = Some c' -> prefix (scripts k) (S (d_vers d k)) c0 = Some c'.
+  Lemma StreamInv_at k c0 (d : db) v cp :
+    d_vers d k = v -> v <= len k -> prefix (scripts k) v c0 = Some cp -> d_cat d = cp -> StreamInv k c0 d.
   Proof.
-    intros HR [_ Hst] Hx Ex. destruct Hst as [Hp|[_ Hp]].
-    - rewrite (prefix_S _ _ _ _ Hx), Hp. exact Ex.
-    - rewrite Hp. f_equal.
-      rewrite (prefix_S _ _ _ _ Hx) in Hp. destruct (prefix (scripts k) (d_vers d k) c0) as [cp|] eqn:Hpp; [|discriminate].
-      pose proof (HR _ _ _ _ Hx Hpp Hp) as R. congruence.
+    intros Hv Hle Hp Hc. unfold StreamInv. rewrite Hv. split; [exact Hle|]. exists cp. split; [exact Hp|].
+    destruct (nth_error (scripts k) v); [rewrite Hc; apply Mid_refl|exact Hc].
   Qed.
 
   Lemma loop_inv k c0 : reexecP (scripts k) c0 -> forall n os (d : db),
@@ -360,37 +379,38 @@ Section ProtoProofs.
   Proof.
     intros HR. induction n as [|n IH]; intros os d Hn HI.
     - rewrite skipn_all2 by lia. cbn. split; [exact HI|]. split; [auto|]. intros _.
-      split; [lia|]. destruct HI as [_ [Hp|[Hlt _]]]; [|lia].
-      replace (d_vers d k) with (len k) in Hp by lia. now rewrite prefix_all in Hp.
+      split; [lia|]. destruct HI as (_ & cp & Hp & Hm).
+      assert (Hnone : nth_error (scripts k) (d_vers d k) = None) by (apply nth_error_None; lia).
+      rewrite Hnone in Hm. replace (d_vers d k) with (len k) in Hp by lia. rewrite prefix_all in Hp. now rewrite Hm.
     - rewrite skipn_nth. destruct (nth_error (scripts k) (d_vers d k)) as [x|] eqn:Hx.
       2:{ apply nth_error_None in Hx. lia. }
       assert (Hlt : d_vers d k < len k) by (apply nth_error_Some; congruence).
       cbn [Migrate.loop].
-      destruct (do_call (o_hd os) (eff_script x) d) as [d1 r1] eqn:E1.
-      (* state after the script call, whenever the script took effect *)
-      assert (Happlied : forall d', eff_script x d = Some d' ->
-                d_vers d' = d_vers d /\ prefix (scripts k) (S (d_vers d k)) c0 = Some (d_cat d')).
-      { intros d' He. apply eff_script_inv in He. destruct He as (c' & Ex & Hc & Hv & _).
-        split; [exact Hv|]. rewrite Hc. exact (script_step k c0 d x c' HR HI Hx Ex). }
-      assert (HI1 : StreamInv k c0 d1 /\ d_vers d1 = d_vers d).
-      { destruct (do_call_inv _ _ _ _ _ E1) as [[_ He]|[[_ He]|[_ ->]]]; [| |split; [exact HI|reflexivity]];
-          destruct (Happlied _ He) as [Hv Hp]; (split; [|exact Hv]); unfold StreamInv; rewrite Hv;
-          (split; [lia|right; split; [exact Hlt|exact Hp]]). }
-      destruct HI1 as [HI1 Hv1].
+      destruct HI as (Hle & cp & Hp & Hm). rewrite Hx in Hm.
+      destruct (HR _ _ _ Hx Hp) as (c2 & Hmid2 & Hgood).
+      assert (Hp2 : prefix (scripts k) (S (d_vers d k)) c0 = Some c2).
+      { rewrite (prefix_S _ _ _ _ Hx), Hp. exact (proj1 (Hgood cp (Mid_refl x cp))). }
+      destruct (do_call (o_hd os) (eff_script x) (peff_script x) d) as [d1 r1] eqn:E1.
+      destruct (script_call_inv _ _ _ _ _ E1) as (Hv1 & _ & _ & Hcases).
+      assert (Hm1 : Mid x cp (d_cat d1) /\ (res_applied r1 = true -> d_cat d1 = c2)).
+      { destruct Hcases as [[A Ex]|[A [Hc|[m Hc]]]].
+        - rewrite (proj1 (Hgood _ Hm)) in Ex. injection Ex as Ex. split; [rewrite <- Ex; exact Hmid2|intros _; now rewrite <- Ex].
+        - rewrite Hc. split; [exact Hm|]. intros B. rewrite B in A. discriminate.
+        - rewrite Hc. split; [exact (proj2 (Hgood _ Hm) m)|]. intros B. rewrite B in A. discriminate. }
+      destruct Hm1 as [Hm1 Hc1].
+      assert (HI1 : StreamInv k c0 d1).
+      { unfold StreamInv. rewrite Hv1. split; [exact Hle|]. exists cp. split; [exact Hp|]. now rewrite Hx. }
       destruct (res_ok r1) eqn:R1.
       2:{ cbn [r_db r_ok]. split; [exact HI1|]. split; [intros; now rewrite Hv1|discriminate]. }
-      assert (Hp1 : prefix (scripts k) (S (d_vers d k)) c0 = Some (d_cat d1)).
-      { destruct (do_call_inv _ _ _ _ _ E1) as [[_ He]|[[-> _]|[Hn' _]]]; [|discriminate|].
-        - now destruct (Happlied _ He).
-        - rewrite (res_ok_applied _ R1) in Hn'. discriminate. }
-      destruct (do_call (o_hd (tl os)) (eff_setver k (S (d_vers d k))) d1) as [d2 r2] eqn:E2.
+      specialize (Hc1 (res_ok_applied _ R1)).
+      destruct (do_call (o_hd (tl os)) (eff_setver k (S (d_vers d k))) peff_none d1) as [d2 r2] eqn:E2.
       assert (Hset : forall d', eff_setver k (S (d_vers d k)) d1 = Some d' ->
                 d_cat d' = d_cat d1 /\ d_vers d' k = S (d_vers d k) /\ (forall k', k' <> k -> d_vers d' k' = d_vers d k')).
       { intros d' He. apply eff_setver_inv in He. destruct He as (Hc & _ & _ & Hk & Ho).
         split; [exact Hc|]. split; [rewrite Hk, Hv1; lia|]. intros k' Hk'. rewrite (Ho k' Hk'). now rewrite Hv1. }
       assert (HI2a : forall d', eff_setver k (S (d_vers d k)) d1 = Some d' -> StreamInv k c0 d').
-      { intros d' He. destruct (Hset _ He) as (Hc & Hk & _). unfold StreamInv. rewrite Hk, Hc.
-        split; [lia|left; exact Hp1]. }
+      { intros d' He. destruct (Hset _ He) as (Hc & Hk & _).
+        apply (StreamInv_at k c0 d' (S (d_vers d k)) c2 Hk ltac:(lia) Hp2). now rewrite Hc. }
       destruct (res_ok r2) eqn:R2.
       + destruct (do_call_inv _ _ _ _ _ E2) as [[_ He]|[[-> _]|[Hn' _]]]; [|discriminate|].
         2:{ rewrite (res_ok_applied _ R2) in Hn'. discriminate. }
@@ -406,38 +426,30 @@ Section ProtoProofs.
   Qed.
 
   (* without injected faults the loop runs to the end *)
-  Lemma loop_clean k c0 : reexecP (scripts k) c0 -> (exists cf, apply_all (scripts k) c0 = Some cf) ->
+  Lemma loop_clean k c0 : reexecP (scripts k) c0 ->
     forall n (d : db), n + d_vers d k = len k -> StreamInv k c0 d -> d_ver_tbl d = true ->
     let r := loop k (skipn (d_vers d k) (scripts k)) (d_vers d k) [] d in r_ok r = true /\ r_os r = [].
   Proof.
-    intros HR [cf Hcf]. induction n as [|n IH]; intros d Hn HI Ht.
+    intros HR. induction n as [|n IH]; intros d Hn HI Ht.
     - rewrite skipn_all2 by lia. cbn. auto.
     - rewrite skipn_nth. destruct (nth_error (scripts k) (d_vers d k)) as [x|] eqn:Hx.
       2:{ apply nth_error_None in Hx. lia. }
       assert (Hlt : d_vers d k < len k) by (apply nth_error_Some; congruence).
       cbn [Migrate.loop o_hd tl].
-      assert (Hex : exists c', exec x (d_cat d) = Some c').
-      { destruct HI as [_ [Hp|[_ Hp]]].
-        - destruct (prefix (scripts k) (S (d_vers d k)) c0) as [cn|] eqn:E.
-          + rewrite (prefix_S _ _ _ _ Hx), Hp in E. eauto.
-          + exfalso. unfold Migrate.prefix in E.
-            pose proof (apply_all_firstn_none _ (S (d_vers d k)) (len k) c0 ltac:(lia) E) as Hnone.
-            rewrite firstn_all in Hnone. congruence.
-        - exists (d_cat d). rewrite (prefix_S _ _ _ _ Hx) in Hp.
-          destruct (prefix (scripts k) (d_vers d k) c0) as [cp|] eqn:Hpp; [|discriminate].
-          exact (HR _ _ _ _ Hx Hpp Hp). }
-      destruct Hex as [c' Ex].
-      assert (He1 : eff_script x d = Some (set_cat cat d c')) by (unfold Migrate.eff_script; now rewrite Ex).
-      rewrite (do_call_ok_clean _ _ _ He1). cbn [res_ok].
-      set (d1 := set_cat cat d c').
+      destruct HI as (Hle & cp & Hp & Hm). rewrite Hx in Hm.
+      destruct (HR _ _ _ Hx Hp) as (c2 & Hmid2 & Hgood).
+      assert (Hp2 : prefix (scripts k) (S (d_vers d k)) c0 = Some c2).
+      { rewrite (prefix_S _ _ _ _ Hx), Hp. exact (proj1 (Hgood cp (Mid_refl x cp))). }
+      pose proof (proj1 (Hgood _ Hm)) as Ex.
+      assert (He1 : eff_script x d = Some (set_cat cat d c2)) by (unfold Migrate.eff_script; now rewrite Ex).
+      rewrite (do_call_ok_clean _ _ _ _ He1). cbn [res_ok].
+      set (d1 := set_cat cat d c2).
       assert (He2 : eff_setver k (S (d_vers d k)) d1 = Some (set_ver cat d1 k (S (d_vers d k)))).
       { unfold Migrate.eff_setver. cbn. now rewrite Ht. }
-      rewrite (do_call_ok_clean _ _ _ He2). cbn [res_ok].
+      rewrite (do_call_ok_clean _ _ _ _ He2). cbn [res_ok].
       set (d2 := set_ver cat d1 k (S (d_vers d k))).
       assert (Hk2 : d_vers d2 k = S (d_vers d k)) by (cbn; rewrite stream_eqb_refl; lia).
-      assert (HI2 : StreamInv k c0 d2).
-      { unfold StreamInv. rewrite Hk2. split; [lia|left]. cbn [d_cat d2 d1 set_ver set_cat].
-        exact (script_step k c0 d x c' HR HI Hx Ex). }
+      assert (HI2 : StreamInv k c0 d2) by (apply (StreamInv_at k c0 d2 _ c2 Hk2 ltac:(lia) Hp2); reflexivity).
       assert (Hn2 : n + d_vers d2 k = len k) by lia.
       pose proof (IH d2 Hn2 HI2 Ht) as IH2. rewrite Hk2 in IH2. cbn [r_ok r_os]. exact IH2.
   Qed.
@@ -458,15 +470,15 @@ Section ProtoProofs.
     - cbv zeta. split; [exact HIp|]. split; [intros; now rewrite Hv|]. intros Hx. rewrite Hok in Hx. discriminate.
   Qed.
 
-  Lemma us_clean c k c0 (d : db) : reexecP (scripts k) c0 -> (exists cf, apply_all (scripts k) c0 = Some cf) ->
+  Lemma us_clean c k c0 (d : db) : reexecP (scripts k) c0 ->
     StreamInv k c0 d -> r_ok (us c k [] d) = true /\ r_os (us c k [] d) = [].
   Proof.
-    intros HR HT HI. unfold Migrate.us.
+    intros HR HI. unfold Migrate.us.
     destruct (prelude_props c k [] d) as (Hc & Hv & _ & Htbl & _ & Hcl).
     set (p := prelude c k [] d) in *. destruct (Hcl eq_refl) as [Hok Hos]. rewrite Hok, Hos.
     assert (HIp : StreamInv k c0 (r_db p)) by (unfold StreamInv in *; now rewrite Hc, Hv).
     assert (Hn : (len k - d_vers (r_db p) k) + d_vers (r_db p) k = len k) by (destruct HIp; lia).
-    exact (loop_clean k c0 HR HT _ (r_db p) Hn HIp (Htbl Hok)).
+    exact (loop_clean k c0 HR _ (r_db p) Hn HIp (Htbl Hok)).
   Qed.
 
   (* invariant of the whole database relative to the stream list: a (possibly empty) prefix of the streams
@@ -500,7 +512,7 @@ Section ProtoProofs.
     - left. rewrite Hk. split; [reflexivity|]. exists c0. split; [reflexivity|].
       apply IH; [exact Hc|]. intros k' Hk'. apply Hz. now right.
     - right. rewrite Hk. split; [cbn; lia|]. split; [intros k' Hk'; apply Hz; now right|].
-      unfold StreamInv. rewrite Hk, Es. split; [cbn; lia|left]. cbn. now rewrite Hc.
+      apply (StreamInv_at k c0 d 0 c0 Hk ltac:(lia)); [reflexivity|exact Hc].
   Qed.
 
   Lemma us_step c k ks c0 c1 os (d : db) :
@@ -525,24 +537,18 @@ Section ProtoProofs.
       { intros k' Hk'. rewrite Hfr; [now apply Hz|]. intros ->. contradiction. }
       assert (Hcomplete : d_vers (r_db r) k = len k -> InvL ks c1 (r_db r)).
       { intros He. apply InvL_fresh; [|exact Hz'].
-        destruct HS' as [_ [Hp|[Hlt _]]]; [|lia]. rewrite He, prefix_all, Ha in Hp. now inversion Hp. }
+        destruct HS' as (_ & cp & Hp & Hm). rewrite He in Hp, Hm.
+        assert (Hnone : nth_error (scripts k) (len k) = None) by (apply nth_error_None; lia).
+        rewrite Hnone in Hm. rewrite prefix_all, Ha in Hp. congruence. }
       split; [|split; [|exact Hfr]].
-      + cbn [InvL]. destruct HS' as [Hle Hst].
+      + cbn [InvL]. pose proof HS' as (Hle & _).
         destruct (Nat.eq_dec (d_vers (r_db r) k) (len k)) as [He|Hne].
         * left. split; [exact He|]. exists c1. split; [exact Ha|]. now apply Hcomplete.
-        * right. split; [lia|]. split; [exact Hz'|]. split; assumption.
+        * right. split; [lia|]. split; [exact Hz'|exact HS'].
       + intros Hok. destruct (Hdone Hok) as [He _]. split; [exact He|]. now apply Hcomplete.
   Qed.
 
-  Lemma reexec_streams_cons k ks c0 : reexec_streams (k :: ks) c0 = true ->
-    reexecP (scripts k) c0 /\ exists c1, apply_all (scripts k) c0 = Some c1 /\ reexec_streams ks c1 = true.
-  Proof.
-    cbn. intros H. apply andb_true_iff in H. destruct H as [H1 H2].
-    destruct (reexec_ok_sound _ _ H1) as [HR [cf Hcf]]. split; [exact HR|].
-    rewrite Hcf in H2. eauto.
-  Qed.
-
-  Lemma run_streams_inv c : forall ks c0 os (d : db), NoDup ks -> reexec_streams ks c0 = true -> InvL ks c0 d ->
+  Lemma run_streams_inv c : forall ks c0 os (d : db), NoDup ks -> reexec_streamsP ks c0 -> InvL ks c0 d ->
     let r := run_streams c ks os d in
     InvL ks c0 (r_db r) /\ (forall k', ~ In k' ks -> d_vers (r_db r) k' = d_vers d k') /\
     (r_ok r = true -> apply_streams ks c0 = Some (d_cat (r_db r)) /\ forall k, In k ks -> d_vers (r_db r) k = len k).
@@ -550,7 +556,7 @@ Section ProtoProofs.
     induction ks as [|k ks IH]; intros c0 os d Hnd Hre HI; cbn [Migrate.run_streams].
     - cbn. split; [exact HI|]. split; [auto|]. intros _. cbn in HI. split; [now rewrite HI|intros k []].
     - inversion Hnd as [|? ? Hnin Hnd']; subst.
-      destruct (reexec_streams_cons k ks c0 Hre) as (HR & c1 & Ha & Hre').
+      destruct Hre as (HR & c1 & Ha & Hre').
       destruct (us_step c k ks c0 c1 os d Hnin HR Ha HI) as (HI1 & Hdone & Hfr).
       set (r := us c k os d) in *.
       destruct (r_ok r) eqn:Hok.
@@ -568,22 +574,22 @@ Section ProtoProofs.
         intros k' Hk'. apply Hfr. intros ->. apply Hk'. now left.
   Qed.
 
-  Lemma run_streams_clean c : forall ks c0 (d : db), NoDup ks -> reexec_streams ks c0 = true -> InvL ks c0 d ->
+  Lemma run_streams_clean c : forall ks c0 (d : db), NoDup ks -> reexec_streamsP ks c0 -> InvL ks c0 d ->
     r_ok (run_streams c ks [] d) = true.
   Proof.
     induction ks as [|k ks IH]; intros c0 d Hnd Hre HI; cbn [Migrate.run_streams]; [reflexivity|].
     inversion Hnd as [|? ? Hnin Hnd']; subst.
-    destruct (reexec_streams_cons k ks c0 Hre) as (HR & c1 & Ha & Hre').
+    destruct Hre as (HR & c1 & Ha & Hre').
     assert (Hcl : r_ok (us c k [] d) = true /\ r_os (us c k [] d) = []).
     { cbn [InvL] in HI. destruct HI as [(Hk & _)|(_ & _ & HS)].
       - destruct (us_noop c k [] d ltac:(lia)) as (_ & _ & _ & H). now apply H.
-      - apply (us_clean c k c0 d HR); [eauto|exact HS]. }
+      - apply (us_clean c k c0 d HR HS). }
     destruct Hcl as [Hok Hos].
     destruct (us_step c k ks c0 c1 [] d Hnin HR Ha HI) as (_ & Hdone & _).
     rewrite Hok, Hos. cbn [r_ok]. destruct (Hdone Hok) as [_ HI1]. exact (IH c1 _ Hnd' Hre' HI1).
   Qed.
 
-  Lemma multi_run_inv c c0 : NoDup (streams_of c) -> reexec_streams (streams_of c) c0 = true ->
+  Lemma multi_run_inv c c0 : NoDup (streams_of c) -> reexec_streamsP (streams_of c) c0 ->
     forall runs (d : db), InvL (streams_of c) c0 d -> InvL (streams_of c) c0 (fst (multi_run c runs d)).
   Proof.
     intros Hnd Hre. induction runs as [|os runs IH]; intros d HI; cbn [Migrate.multi_run]; [exact HI|].
@@ -598,10 +604,10 @@ Section ProtoProofs.
       repeat (constructor; [cbn; intuition discriminate|]); constructor.
   Qed.
 
-  (* after any number of interrupted runs, one run without faults completes and ends where a migration
-     that was never interrupted ends *)
-  Theorem converges c c0 runs :
-    reexec_streams (streams_of c) c0 = true ->
+  (* after any number of interrupted runs (failures before / after any call, statements that completed on some
+     hosts only), one run without faults completes and ends where a migration that was never interrupted ends *)
+  Theorem converges_gen c c0 runs :
+    reexec_streamsP (streams_of c) c0 ->
     let d := fst (multi_run c runs (db0 cat c0)) in
     let r := update c [] d in
     r_ok r = true /\ apply_streams (streams_of c) c0 = Some (d_cat (r_db r)) /\
@@ -616,6 +622,62 @@ Section ProtoProofs.
     split; [exact Hok|]. exact (Hdone Hok).
   Qed.
 End ProtoProofs.
+
+
+(* ------------------------------------------------------------------ one server: no partial effects *)
+Definition pexec_one {cat stmt : Type} : list bool -> stmt -> cat -> cat := fun _ _ c => c.
+
+Section OneServer.
+  Variables (cat stmt : Type).
+  Variable exec : stmt -> cat -> option cat.
+  Variable scripts : stream -> list stmt.
+  Variable cat_eqb : cat -> cat -> bool.
+  Hypothesis cat_eqb_sound : forall a b, cat_eqb a b = true -> a = b.
+
+  (* on one server a statement that has not been seen to complete either did nothing or took effect *)
+  Definition Mid1 (x : stmt) (c cm : cat) : Prop := cm = c \/ exec x c = Some cm.
+
+  Notation reexecP1 := (reexecP cat stmt exec pexec_one Mid1).
+
+  Lemma reexec_ok_sound : forall l c0, reexec_ok cat stmt exec cat_eqb l c0 = true ->
+    reexecP1 l c0 /\ exists cf, apply_all cat stmt exec l c0 = Some cf.
+  Proof.
+    induction l as [|x l IH]; intros c0 H.
+    - split; [|cbn; eauto]. intros [|n] y c1 Hn; cbn in Hn; discriminate.
+    - cbn in H. destruct (exec x c0) as [c1|] eqn:E0; [|discriminate].
+      destruct (exec x c1) as [c2|] eqn:E1; [|discriminate].
+      apply andb_true_iff in H. destruct H as [Heq Hr]. apply cat_eqb_sound in Heq. subst c2.
+      destruct (IH c1 Hr) as [HP [cf Hcf]]. split.
+      + intros [|n] y a Hn Hp.
+        * cbn in Hn, Hp. inversion Hn; subst y. inversion Hp; subst a.
+          exists c1. split; [right; exact E0|]. intros cm [->|Hcm].
+          -- split; [exact E0|]. intros m. left. reflexivity.
+          -- rewrite E0 in Hcm. inversion Hcm; subst cm. split; [exact E1|]. intros m. right. exact E0.
+        * cbn in Hn. unfold Migrate.prefix in Hp. cbn in Hp. rewrite E0 in Hp. exact (HP n y a Hn Hp).
+      + exists cf. cbn. now rewrite E0.
+  Qed.
+
+  Lemma reexec_streams_sound : forall ks c0, reexec_streams cat stmt exec scripts cat_eqb ks c0 = true ->
+    reexec_streamsP cat stmt exec pexec_one scripts Mid1 ks c0.
+  Proof.
+    induction ks as [|k ks IH]; intros c0 H; cbn in *; [exact I|].
+    apply andb_true_iff in H. destruct H as [H1 H2].
+    destruct (reexec_ok_sound _ _ H1) as [HR [cf Hcf]]. split; [exact HR|].
+    rewrite Hcf in H2. exists cf. split; [exact Hcf|]. now apply IH.
+  Qed.
+
+  Theorem converges c c0 runs :
+    reexec_streams cat stmt exec scripts cat_eqb (streams_of c) c0 = true ->
+    let d := fst (multi_run cat stmt exec pexec_one scripts c runs (db0 cat c0)) in
+    let r := update cat stmt exec pexec_one scripts c [] d in
+    r_ok r = true /\ apply_streams cat stmt exec scripts (streams_of c) c0 = Some (d_cat (r_db r)) /\
+    forall k, In k (streams_of c) -> d_vers (r_db r) k = List.length (scripts k).
+  Proof.
+    intros Hre. apply (converges_gen cat stmt exec pexec_one scripts Mid1).
+    - intros x c1. left. reflexivity.
+    - now apply reexec_streams_sound.
+  Qed.
+End OneServer.
 
 (* ------------------------------------------------------------------ soundness of the structural equality *)
 Lemma list_eqb_sound {A} (f : A -> A -> bool) :
@@ -664,6 +726,7 @@ Proof. destruct k; reflexivity. Qed.
 Section ObsProofs.
   Variables (cat stmt : Type).
   Variable exec : stmt -> cat -> option cat.
+  Variable pexec : list bool -> stmt -> cat -> cat.
   Variable scripts : stream -> list stmt.
   Variable sids : stream -> list N.
   Hypothesis sids_len : forall k, List.length (sids k) = List.length (scripts k).
@@ -698,15 +761,18 @@ Section ObsProofs.
     exists m', omon_step m (OScript (sid_at sids k v) r) = Some m' /\ om_cur m' = Some k /\ om_rec m' = om_rec m /\
                (forall k', om_app m k' <= om_app m' k') /\ (res_applied r = true -> S v <= om_app m' k).
   Proof.
-    intros Hcur Hrec Hle Hlt. cbn [Migrate.omon_step]. destruct (res_applied r) eqn:A.
-    2:{ exists m. split; [reflexivity|]. split; [exact Hcur|]. split; [reflexivity|]. split; [auto|discriminate]. }
+    intros Hcur Hrec Hle Hlt. cbn [Migrate.omon_step]. destruct (res_reached r) eqn:Rr.
+    2:{ exists m. split; [reflexivity|]. split; [exact Hcur|]. split; [reflexivity|]. split; [auto|].
+        destruct r; cbn in *; discriminate. }
     rewrite Hcur. rewrite <- sids_len in Hlt.
     assert (Hnz : N.eqb (sid_at sids k v) 0 = false) by (apply N.eqb_neq, sids_nonzero, Hlt).
     rewrite Hnz. cbn [negb]. rewrite !andb_true_r.
     destruct ((om_app m k <? List.length (sids k)) && N.eqb (sid_at sids k (om_app m k)) (sid_at sids k v)) eqn:B.
-    - eexists. split; [reflexivity|]. cbn [om_cur om_app om_rec]. split; [reflexivity|]. split; [reflexivity|]. split.
-      + intros k'. destruct (stream_eqb k' k) eqn:E; [apply stream_eqb_eq in E; subst; lia|lia].
-      + intros _. rewrite stream_eqb_refl. lia.
+    - destruct (res_applied r) eqn:A.
+      + eexists. split; [reflexivity|]. cbn [om_cur om_app om_rec]. split; [reflexivity|]. split; [reflexivity|]. split.
+        * intros k'. destruct (stream_eqb k' k) eqn:E; [apply stream_eqb_eq in E; subst; lia|lia].
+        * intros _. rewrite stream_eqb_refl. lia.
+      + exists m. split; [reflexivity|]. split; [exact Hcur|]. split; [reflexivity|]. split; [auto|discriminate].
     - assert (Hgt : v < om_app m k).
       { destruct (Nat.eq_dec v (om_app m k)) as [He|Hne]; [|lia]. exfalso. rewrite <- He in B.
         rewrite N.eqb_refl, andb_true_r in B. apply Nat.ltb_ge in B. lia. }
@@ -726,7 +792,7 @@ Section ObsProofs.
   Qed.
 
   Lemma loop_omon k : forall n os (d : db) m, n + d_vers d k = len k -> om_cur m = Some k -> OLink d m ->
-    let r := loop cat stmt exec k (skipn (d_vers d k) (scripts k)) (d_vers d k) os d in
+    let r := loop cat stmt exec pexec k (skipn (d_vers d k) (scripts k)) (d_vers d k) os d in
     exists m', omon_run m (absl (r_log r)) = Some m' /\ OLink (r_db r) m'.
   Proof.
     induction n as [|n IH]; intros os d m Hn Hcur HL.
@@ -735,17 +801,15 @@ Section ObsProofs.
       2:{ apply nth_error_None in Hx. lia. }
       assert (Hlt : d_vers d k < len k) by (apply nth_error_Some; congruence).
       cbn [Migrate.loop].
-      destruct (do_call cat (o_hd os) (eff_script cat stmt exec x) d) as [d1 r1] eqn:E1.
+      destruct (do_call cat (o_hd os) (eff_script cat stmt exec x) (peff_script cat stmt pexec x) d) as [d1 r1] eqn:E1.
       destruct (HL k) as [Hrec Hle].
       destruct (omon_script k (d_vers d k) r1 m Hcur Hrec Hle Hlt) as (m1 & Hs1 & Hcur1 & Hrec1 & Hmono & Happ).
-      assert (Hv1 : d_vers d1 = d_vers d).
-      { destruct (do_call_inv _ _ _ _ _ _ E1) as [[_ He]|[[_ He]|[_ ->]]]; [| |reflexivity];
-          apply eff_script_inv in He; destruct He as (c' & _ & _ & Hv & _); exact Hv. }
+      assert (Hv1 : d_vers d1 = d_vers d) by (destruct (script_call_inv _ _ _ _ _ _ _ _ _ E1) as (Hv & _); exact Hv).
       assert (HL1 : OLink d1 m1).
       { intros k'. rewrite Hv1, Hrec1. destruct (HL k') as [Ha Hb]. specialize (Hmono k'). lia. }
       destruct (res_ok r1) eqn:R1.
       + specialize (Happ (res_ok_applied _ R1)).
-        destruct (do_call cat (o_hd (tl os)) (eff_setver cat k (S (d_vers d k))) d1) as [d2 r2] eqn:E2.
+        destruct (do_call cat (o_hd (tl os)) (eff_setver cat k (S (d_vers d k))) (peff_none cat) d1) as [d2 r2] eqn:E2.
         set (m2 := if res_applied r2 then obump_rec m1 k (S (d_vers d k)) else m1).
         assert (Hcur2 : om_cur m2 = Some k) by (unfold m2, obump_rec; destruct (res_applied r2); exact Hcur1).
         assert (HL2 : OLink d2 m2 /\ (res_ok r2 = true -> d_vers d2 k = S (d_vers d k))).
@@ -777,23 +841,23 @@ Section ObsProofs.
                (r_ok p = true -> om_cur m' = Some k).
   Proof.
     unfold Migrate.prelude.
-    destruct (do_call cat (o_hd os) (eff_create_ver cat) d) as [d1 r1].
+    destruct (do_call cat (o_hd os) (eff_create_ver cat) (peff_none cat) d) as [d1 r1].
     destruct (res_ok r1); cbn [negb].
     2:{ cbn. eexists. split; [reflexivity|]. split; [reflexivity|]. split; [reflexivity|discriminate]. }
     destruct (clustered c).
-    - destruct (do_call cat (o_hd (tl os)) (eff_create_vd cat) d1) as [d2 r2].
+    - destruct (do_call cat (o_hd (tl os)) (eff_create_vd cat) (peff_none cat) d1) as [d2 r2].
       destruct (res_ok r2); cbn [negb].
       2:{ cbn. eexists. split; [reflexivity|]. split; [reflexivity|]. split; [reflexivity|discriminate]. }
-      destruct (do_call cat (o_hd (tl (tl os))) (eff_read cat c) d2) as [d3 r3].
+      destruct (do_call cat (o_hd (tl (tl os))) (eff_read cat c) (peff_none cat) d2) as [d3 r3].
       cbn [negb r_log r_ok map app abs_event Migrate.omon_run Migrate.omon_step]. rewrite stream_of_k_k.
       eexists. split; [reflexivity|]. cbn. auto.
-    - destruct (do_call cat (o_hd (tl os)) (eff_read cat c) d1) as [d3 r3].
+    - destruct (do_call cat (o_hd (tl os)) (eff_read cat c) (peff_none cat) d1) as [d3 r3].
       cbn [negb r_log r_ok map app abs_event Migrate.omon_run Migrate.omon_step]. rewrite stream_of_k_k.
       eexists. split; [reflexivity|]. cbn. auto.
   Qed.
 
   Lemma us_omon c k os (d : db) m : OLink d m ->
-    let r := us cat stmt exec scripts c k os d in
+    let r := us cat stmt exec pexec scripts c k os d in
     exists m', omon_run m (absl (r_log r)) = Some m' /\ OLink (r_db r) m'.
   Proof.
     intros HL. unfold Migrate.us.
@@ -811,33 +875,33 @@ Section ObsProofs.
   Qed.
 
   Lemma run_streams_omon c : forall ks os (d : db) m, OLink d m ->
-    let r := run_streams cat stmt exec scripts c ks os d in
+    let r := run_streams cat stmt exec pexec scripts c ks os d in
     exists m', omon_run m (absl (r_log r)) = Some m' /\ OLink (r_db r) m'.
   Proof.
     induction ks as [|k ks IH]; intros os d m HL; cbn [Migrate.run_streams].
     - cbn. eauto.
     - destruct (us_omon c k os d m HL) as (m1 & Hm1 & HL1).
-      destruct (r_ok (us cat stmt exec scripts c k os d)).
-      + destruct (IH (r_os (us cat stmt exec scripts c k os d)) (r_db (us cat stmt exec scripts c k os d)) m1 HL1) as (m2 & Hm2 & HL2).
+      destruct (r_ok (us cat stmt exec pexec scripts c k os d)).
+      + destruct (IH (r_os (us cat stmt exec pexec scripts c k os d)) (r_db (us cat stmt exec pexec scripts c k os d)) m1 HL1) as (m2 & Hm2 & HL2).
         cbn [r_log r_db]. rewrite map_app, omon_run_app, Hm1. eauto.
       + eauto.
   Qed.
 
   Lemma multi_run_omon c : forall runs (d : db) m, OLink d m ->
-    exists m', omon_run m (absl (snd (multi_run cat stmt exec scripts c runs d))) = Some m' /\
-               OLink (fst (multi_run cat stmt exec scripts c runs d)) m'.
+    exists m', omon_run m (absl (snd (multi_run cat stmt exec pexec scripts c runs d))) = Some m' /\
+               OLink (fst (multi_run cat stmt exec pexec scripts c runs d)) m'.
   Proof.
     induction runs as [|os runs IH]; intros d m HL; cbn [Migrate.multi_run].
     - cbn. eauto.
     - destruct (run_streams_omon c (streams_of c) os d m HL) as (m1 & Hm1 & HL1).
-      fold (update cat stmt exec scripts c os d) in Hm1, HL1.
-      destruct (IH (r_db (update cat stmt exec scripts c os d)) m1 HL1) as (m2 & Hm2 & HL2).
-      destruct (multi_run cat stmt exec scripts c runs (r_db (update cat stmt exec scripts c os d))) as [d' l].
+      fold (update cat stmt exec pexec scripts c os d) in Hm1, HL1.
+      destruct (IH (r_db (update cat stmt exec pexec scripts c os d)) m1 HL1) as (m2 & Hm2 & HL2).
+      destruct (multi_run cat stmt exec pexec scripts c runs (r_db (update cat stmt exec pexec scripts c os d))) as [d' l].
       cbn [fst snd] in *. rewrite map_app, omon_run_app, Hm1. eauto.
   Qed.
 
   Theorem oracle_accepts_model_logs c runs c0 :
-    omon_ok sids (absl (snd (multi_run cat stmt exec scripts c runs (db0 cat c0)))) = true.
+    omon_ok sids (absl (snd (multi_run cat stmt exec pexec scripts c runs (db0 cat c0)))) = true.
   Proof.
     unfold omon_ok.
     destruct (multi_run_omon c runs (db0 cat c0) {| om_cur := None; om_app := fun _ => 0; om_rec := fun _ => 0 |}) as (m' & Hm & _).
